@@ -301,10 +301,43 @@ fn con_info(b: &B) -> R<ConInfo> {
     })
 }
 
+/// The same set of cars reached through different call histories on the public mutators (insert / remove / clear /
+/// from_bits_truncate): the value a user encodes is rarely a freshly built one.
 fn cars_set(names: &[String]) -> R<PlcAllowedCarsSet> {
+    let targets: Vec<Vehicle> = names.iter().map(|n| vehicle_by_name(n)).collect::<R<Vec<_>>>()?;
+    let history = names.iter().fold(names.len() as u64, |h, n| h.wrapping_mul(31).wrapping_add(n.bytes().map(|b| b as u64).sum::<u64>())) % 4;
     let mut s = PlcAllowedCarsSet::default();
-    for n in names {
-        let _ = s.insert(vehicle_by_name(n)?).map_err(|e| e.to_string())?;
+    match history {
+        1 => {
+            // filled with other cars, cleared, then filled with the wanted ones
+            for v in [Vehicle::Xfg, Vehicle::Fbm, Vehicle::Bf1, Vehicle::Uf1] {
+                let _ = s.insert(v).map_err(|e| e.to_string())?;
+            }
+            s.clear();
+        },
+        2 => {
+            // a superset from raw bits, the unwanted ones removed one by one
+            s = PlcAllowedCarsSet::from_bits_truncate(u32::MAX);
+            let all: Vec<Vehicle> = s.iter().cloned().collect();
+            for v in all {
+                if !targets.contains(&v) {
+                    let _ = s.remove(&v);
+                }
+            }
+        },
+        3 => {
+            // extras inserted and removed again
+            for v in [Vehicle::Xrt, Vehicle::Fz5] {
+                if !targets.contains(&v) {
+                    let _ = s.insert(v.clone()).map_err(|e| e.to_string())?;
+                    let _ = s.remove(&v);
+                }
+            }
+        },
+        _ => {},
+    }
+    for v in targets {
+        let _ = s.insert(v).map_err(|e| e.to_string())?;
     }
     Ok(s)
 }
@@ -733,9 +766,24 @@ pub fn from_fields(spec: &Spec, lay: &Layout, fm: &FieldMap) -> Result<Packet, S
             m.reqi = reqi;
             m.ucid = b.ucid("UCID")?;
             let Val::P(items) = b.get("SkinID")? else { return Err("MAL SkinID".into()) };
+            // different call histories for the same list (see cars_set)
+            match items.len() % 3 {
+                1 => {
+                    let _ = m.insert(Vehicle::Mod(0x00AB_CDEF)).map_err(|e| e.to_string())?;
+                    let _ = m.insert(Vehicle::Mod(0x0012_3456)).map_err(|e| e.to_string())?;
+                    m.clear();
+                },
+                2 => {
+                    let _ = m.insert(Vehicle::Mod(0x00FE_DCBA)).map_err(|e| e.to_string())?;
+                },
+                _ => {},
+            }
             for it in items {
                 let Val::U(id) = it else { return Err("MAL item".into()) };
                 let _ = m.insert(Vehicle::Mod(*id as u32)).map_err(|e| e.to_string())?;
+            }
+            if items.len() % 3 == 2 && !items.iter().any(|it| matches!(it, Val::U(0x00FE_DCBA))) {
+                let _ = m.remove(&Vehicle::Mod(0x00FE_DCBA));
             }
             Packet::Mal(m)
         },
@@ -756,9 +804,24 @@ pub fn from_fields(spec: &Spec, lay: &Layout, fm: &FieldMap) -> Result<Packet, S
             let mut m = Ipb::default();
             m.reqi = reqi;
             let Val::P(items) = b.get("BanIPs")? else { return Err("IPB BanIPs".into()) };
+            let extra = std::net::Ipv4Addr::new(203, 0, 113, 77);
+            match items.len() % 3 {
+                1 => {
+                    let _ = m.insert(extra);
+                    let _ = m.insert(std::net::Ipv4Addr::new(198, 51, 100, 3));
+                    m.clear();
+                },
+                2 => {
+                    let _ = m.insert(extra);
+                },
+                _ => {},
+            }
             for it in items {
                 let Val::B(ip) = it else { return Err("IPB item".into()) };
                 let _ = m.insert(ip_from_wire(ip));
+            }
+            if items.len() % 3 == 2 && !items.iter().any(|it| matches!(it, Val::B(ip) if ip_from_wire(ip) == extra)) {
+                let _ = m.remove(&extra);
             }
             Packet::Ipb(m)
         },
